@@ -324,7 +324,7 @@ def check_single(rep, http, cfg):
     names = sorted(set(http.host_root(c) for c in callers))
     from rules.props import c16
     under = c16.endpoints_under_next(http)
-    rep.expect('R14.b', len(names) == 2 and any(c16.is_under(c, under) for c in callers) and
+    rep.expect('R14.b', len(names) == 2 and any(c16.is_under_hosted(http, c, under) for c in callers) and
                any('command::RequestBuilder::build' in x for x in names), 'callers',
                'called from the client endpoint and from the command builder',
                'into_protocol_request is called from %s (expected the client endpoint and the command builder)' % names,
